@@ -15,7 +15,7 @@ import itertools
 from .. import vlog
 from ..blocks import Block, compare, summary_outputs, verilog_assign_outputs, parse_cached, cfg_text, mask, Mismatch
 from ..contracts import CONTRACTS, FORALL_CONTRACTS, contract_outputs
-from ..emit import Emitter, EmitError
+from ..emit import Emitter, EmitError, ConfigRefused
 from ..ireval import Cfg, ev, Nondet, EvalError, HOLDV
 from ..srcmap import norm
 from ..summ import Summariser, NotSummarisable, Env, show, showp, c as C
@@ -89,13 +89,75 @@ def py_side(summ):
     return mk
 
 
+def build_leaf(facts, c, cfg, b):
+    """elaborate one instance of leaf class c under configuration cfg -> (Design, object, {port key: wire})"""
+    from ..netlist import Design
+    D = Design(facts)
+    init = facts.lookup(c, '__init__')
+    pm = b.param_map()
+    wires = {}
+    args = []
+    kwargs = {}
+    for p in init.args.args[3:]:
+        attr = pm.get(p.arg)
+        if attr is None and p.arg in b.ports:
+            attr = p.arg
+        if attr in b.ports and not b.ports[attr][2] and not b.ports[attr][0].startswith('iface'):
+            k = ('p', attr)
+            if k in cfg.width:
+                w = D.wire(b.ports[attr][1] or attr, cfg.width[k])
+                wires[k] = w
+                kwargs[p.arg] = w
+            else:
+                kwargs[p.arg] = None
+        elif attr in b.ports and b.ports[attr][2]:
+            lst = []
+            for i in range(cfg.plen[attr]):
+                w = D.wire('%s_%d' % (attr, i), cfg.width[('pe', attr, i)])
+                wires[('pe', attr, i)] = w
+                lst.append(w)
+            kwargs[p.arg] = lst
+        elif p.arg in cfg.attr:
+            kwargs[p.arg] = cfg.attr[p.arg]
+        elif p.arg in cfg.param:
+            kwargs[p.arg] = cfg.param[p.arg]
+    obj = D.make(c.name, 'dut', rel=c.rel, **kwargs)
+    # list attributes are keyed by their position in the *attribute* (constructors may reverse the argument list)
+    for attr in b.lists:
+        lst = obj.attrs.get(attr)
+        if isinstance(lst, list):
+            for i, w in enumerate(lst):
+                wires[('pe', attr, i)] = w
+                cfg.width[('pe', attr, i)] = w.attrs['width']
+    return D, obj, wires
+
+
+def emitted_text(facts, c, cfg, b, mode):
+    """text the generator emits for one instance: mode 'inline' -> inlinePrimitive(obj), 'body' -> provideBody(obj).
+    The generator code is evaluated abstractly (hv/elab.py), so any refactoring of the emitters is followed."""
+    from ..elab import ElabError, ElabRaise, PyExc
+    from ..gen import generator
+    try:
+        D, obj, wires = build_leaf(facts, c, cfg, b)
+        g = generator(D)
+        text = D.el.call(D.el.getattr_(g, 'inlinePrimitive' if mode == 'inline' else 'provideBody'), [obj], {}, {})
+    except ElabRaise as e:
+        raise ConfigRefused('the constructor / emitter refuses this configuration: %s' % e)
+    except (ElabError, PyExc) as e:
+        raise EmitError('emitter not evaluable: %s' % e)
+    if mode == 'inline':
+        names = {k: 'w_' + w.attrs['name'] for k, w in wires.items()}
+    else:
+        names = {k: w.attrs['name'] for k, w in wires.items()}
+    return text, names
+
+
 def v_side(facts, c, emfn):
+    b = Block(facts, c)
+
     def mk(cfg):
-        em = Emitter(facts, c, cfg)
-        text = em.run(emfn)
-        items = parse_cached(text)
-        blk = Block(facts, c) if False else None
-        names = {pk: em.name_of(pk) for pk in cfg.width}
+        text, names = emitted_text(facts, c, cfg, b, 'inline')
+        parse_cached(text)
         mk.last_text = text
         return lambda: verilog_assign_outputs(text, cfg, names)
     mk.last_text = None
@@ -314,15 +376,20 @@ def check_d(ctx, facts, body, tier, seed):
         for cfg in seq_configs(b, cn, tier):
             ncfg += 1
             try:
-                em = Emitter(facts, c, cfg, objname=objn)
-                text = em.run(emf)
+                text, names = emitted_text(facts, c, cfg, b, 'body')
                 last_text = text
                 parse_cached(text)
-            except (EmitError, vlog.VParseError) as e:
-                diffs.append(Mismatch('body not evaluable: %s' % e, None, None, None, cfg, None))
+            except ConfigRefused:
+                ncfg -= 1
+                continue
+            except EmitError as e:
+                ctx.error('C01.d', '%s: %s' % (cn, e))
+                diffs = None
+                break
+            except vlog.VParseError as e:
+                diffs.append(Mismatch('body does not parse: %s' % e, None, None, None, cfg, None))
                 break
             ink, outk = b.in_keys(cfg), b.out_keys(cfg)
-            names = {pk: em.name_of(pk) for pk in ink + outk}
             ports = {names[k]: ('input', cfg.width[k]) for k in ink}
             ports.update({names[k]: ('output', cfg.width[k]) for k in outk})
             ports['clk'] = ('input', 1)
@@ -331,6 +398,8 @@ def check_d(ctx, facts, body, tier, seed):
             if bad[0] is not None:
                 diffs.append(bad[0])
                 break
+        if diffs is None:
+            continue
         key_d = cn
         # split power-up mismatches (C01.e) from behavioural ones (C01.d)
         if diffs and diffs[0].extra and diffs[0].extra.get('cycle') == 0:
@@ -339,13 +408,13 @@ def check_d(ctx, facts, body, tier, seed):
             # re-run ignoring power-up to still decide the cycle behaviour
             diffs2 = []
             for cfg in seq_configs(b, cn, tier):
-                em = Emitter(facts, c, cfg, objname=objn)
                 try:
-                    text = em.run(emf)
+                    text, names = emitted_text(facts, c, cfg, b, 'body')
+                except ConfigRefused:
+                    continue
                 except EmitError:
                     break
                 ink, outk = b.in_keys(cfg), b.out_keys(cfg)
-                names = {pk: em.name_of(pk) for pk in ink + outk}
                 ports = {names[k]: ('input', cfg.width[k]) for k in ink}
                 ports.update({names[k]: ('output', cfg.width[k]) for k in outk})
                 ports['clk'] = ('input', 1)
